@@ -188,7 +188,7 @@ def chain(draw, lid, direction, cls, spans=(1, 3)):
 
 
 @st.composite
-def band_topology(draw, classes, edges=None, n=(2, 4), extra_max=2, both_dirs_same=None):
+def band_topology(draw, classes, edges=None, n=(2, 4), extra_max=2, both_dirs_same=None, oneway=False):
     """ROADM mesh where each link direction has a band class drawn from `classes`.
     L / Lred degrees get a per-degree design band inside the L band on their ingress ROADM (the documented way to
     tell auto-design which band the degree works in); 'Lnodb' omits it (design then completes the OMS with C-band
@@ -206,11 +206,18 @@ def band_topology(draw, classes, edges=None, n=(2, 4), extra_max=2, both_dirs_sa
         connections.append({'from_node': f'trx R{i}', 'to_node': f'roadm R{i}'})
         connections.append({'from_node': f'roadm R{i}', 'to_node': f'trx R{i}'})
     cls_of = {}
+    oneway_links = []
     for lid, (a, b) in enumerate(links):
         c_ab = draw(st.sampled_from(classes))
         same = draw(st.integers(0, 3)) > 0 if both_dirs_same is None else both_dirs_same
         c_ba = c_ab if same else draw(st.sampled_from(classes))
+        # a link beyond the spanning tree may be equipped in one direction only (truth['oneway'])
+        single = oneway and lid >= k - 1 and draw(st.integers(0, 2)) == 0
+        if single:
+            oneway_links.append(lid)
         for src, dst, d, c in ((a, b, 'ab', c_ab), (b, a, 'ba', c_ba)):
+            if single and d == 'ba':
+                continue
             els = draw(chain(lid, d, c))
             cls_of[f'L{lid}.{d}'] = c
             if c in ('L', 'Lred') and edges is not None:
@@ -229,5 +236,5 @@ def band_topology(draw, classes, edges=None, n=(2, 4), extra_max=2, both_dirs_sa
             for x, y in zip(seq[:-1], seq[1:]):
                 connections.append({'from_node': x, 'to_node': y})
     topo = {'elements': elements, 'connections': connections}
-    truth = {'n': k, 'links': [list(x) for x in links], 'classes': cls_of}
+    truth = {'n': k, 'links': [list(x) for x in links], 'classes': cls_of, 'oneway': oneway_links}
     return topo, truth
